@@ -69,8 +69,11 @@ def config(case):
     return c
 
 
-def ths_of(samples, pt, width=L, dtype='uint8'):
+def ths_of(samples, pt, width=L, dtype='uint8', poison=None):
     import estraces
+    if poison is not None:      # every sample of the poisoned trace is the sentinel the harness preprocess refuses
+        samples = [list(r) for r in samples]
+        samples[poison] = [base.SENTINEL_SAMPLE] * L
     return estraces.read_ths_from_ram(samples=np.array(samples, dtype=dtype).reshape(len(samples), L)[:, :width],
                                       plaintext=np.array(pt, dtype='uint8').reshape(len(pt), 1))
 
@@ -85,7 +88,8 @@ class ConvKind(Kind):
     shard = 120
     rule = ('scared.<X>Attack(convergence_step=k).run(Container) 1-3 times under set_batch_size(bs): exhaustive small scope '
             '(quick: boundary block + seed-sampled triples of N<=30 x bs<=12 u {40} x step<=32 u {50} for CPA, every attack class on a smaller sub-grid; thorough: the '
-            'full grid for CPA, a larger sub-grid for every class), random sequences of 1-3 runs with different batch sizes; step smaller / '
+            'full grid for CPA, a larger sub-grid for every class), random sequences of 1-3 runs with different batch sizes, histories with a run() that raises on a later batch (between complete '
+            'runs / as first run) for every attack class; step smaller / '
             'equal / larger than bs, larger than N, not dividing N; check_fn (property level): points strictly increasing, a step apart except a final remainder, last point = total, '
             'every column = fresh attack on the prefix, last column = final scores, results unchanged; corr_fn (correspondence level): '
             'compute_results() calls, column positions/count, marks = the state machine; non-trivial = at least two columns')
@@ -149,18 +153,43 @@ class ConvKind(Kind):
             cls = rng.choice(ATTACKS)
             k = rng.choice([2, 2, 3])
             runs = [(rng.randint(1, 30), rng.choice([1, 2, 3, 4, 5, 7, 12, 40])) for _ in range(k)]
-            yield mk(cls, rng.choice([1, 2, 3, 4, 5, 6, 7, 9, 10, 13, 16, 25, 32, 50]), runs, seed=rng.randint(0, 3))
+            c = mk(cls, rng.choice([1, 2, 3, 4, 5, 6, 7, 9, 10, 13, 16, 25, 32, 50]), runs, seed=rng.randint(0, 3))
+            if rng.random() < 0.25:        # one of the runs (not the last one) raises on the batch holding a poisoned trace
+                i = rng.randrange(k - 1)
+                if runs[i][0] >= 2:
+                    c['fails'] = [None] * k
+                    c['fails'][i] = rng.randint(1, runs[i][0] - 1)
+            yield c
+        # histories A, B raising on a later batch, C (and B as the first run), for every attack class
+        nfail = 10 if not thorough else 60
+        for cls in ATTACKS:
+            for j in range(nfail):
+                st = rng.choice([1, 2, 3, 4, 5, 7, 10])
+                bs = rng.choice([1, 2, 3, 4, 5])
+                eff = st if bs >= st else st // (st // bs)
+                nb = rng.randint(3 * eff + 1, min(30, 5 * eff + 4))
+                first = j % 4 == 3
+                runs = ([] if first else [(rng.randint(1, 12), rng.choice([bs, bs, 2, 7]))]) + [(nb, bs)] + [(rng.randint(1, 12), rng.choice([bs, 3]))]
+                if j % 5 == 4:
+                    runs.append((rng.randint(1, 8), bs))
+                c = mk(cls, st, runs, seed=rng.randint(0, 3))
+                c['fails'] = [None] * len(runs)
+                c['fails'][0 if first else 1] = rng.randint(max(1, 2 * eff), nb - 1)
+                yield c
 
     # ---------------------------------------------------------------------------------- oracle on the code: fresh prefix attacks
-    def prefix_scores(self, case, p):
+    def prefix_scores(self, case, p, fed_idx=None):
+        """Scores of a FRESH attack on the first p rows fed (fed_idx: their indices in the master set; None = 0 .. p-1)."""
         import scared
         cfg = config(case)
-        key = (case['cls'], case['disc'], case['prec'], case['data_seed'], case.get('G', 3), case.get('W', L), p)
+        idx = list(range(p)) if fed_idx is None else list(fed_idx[:p])
+        tag = p if idx == list(range(p)) else tuple(idx)
+        key = (case['cls'], case['disc'], case['prec'], case['data_seed'], case.get('G', 3), case.get('W', L), tag)
         if key not in self._prefix:
             samples, pt = master(case['data_seed'], case['cls'])
             scared.set_batch_size(None)
             a = base.analysis_class(cfg)(**base.analysis_kwargs(cfg))
-            a.run(scared.Container(ths_of(samples[:p], pt[:p], case.get('W', L))))
+            a.run(scared.Container(ths_of([samples[i] for i in idx], [pt[i] for i in idx], case.get('W', L))))
             self._prefix[key] = base.flt(a.scores)
         return self._prefix[key]
 
@@ -171,8 +200,15 @@ class ConvKind(Kind):
         cls = base.analysis_class(cfg)
         samples, pt = master(case['data_seed'], case['cls'])
         log = []
+        fedlog = []
+        fails = case.get('fails') or [None] * len(case['runs'])
+        pre = [base.poison_preprocess()] if any(f is not None for f in fails) else []
 
         class Logged(cls):
+            def update(self, traces, data):
+                fedlog.append(int(np.asarray(traces).shape[0]))
+                return super().update(traces=traces, data=data)
+
             def compute_results(self):
                 ct = getattr(self, 'convergence_traces', None)
                 log.append([int(self.processed_traces), 0 if ct is None else int(ct.shape[-1])])
@@ -186,10 +222,25 @@ class ConvKind(Kind):
                 plain = cls(**base.analysis_kwargs(cfg))
                 start = 0
                 ncols = []
-                for n, bs in case['runs']:
+                fed_idx = []
+                obs['fed'] = []
+                obs['failed'] = []
+                W_ = case.get('W', L)
+                for (n, bs), fail in zip(case['runs'], fails):
                     scared.set_batch_size(int(bs))
-                    a.run(scared.Container(ths_of(samples[start:start + n], pt[start:start + n], case.get('W', L))))
-                    plain.run(scared.Container(ths_of(samples[start:start + n], pt[start:start + n], case.get('W', L))))
+                    before = sum(fedlog)
+                    try:
+                        a.run(scared.Container(ths_of(samples[start:start + n], pt[start:start + n], W_, poison=fail), preprocesses=list(pre)))
+                        obs['failed'].append(False)
+                    except base.PoisonError:
+                        obs['failed'].append(True)
+                    fed = sum(fedlog) - before
+                    obs['fed'].append(fed)
+                    fed_idx += list(range(start, start + min(fed, n)))
+                    # the reference without convergence_step gets exactly the rows this run() fed (its own batch size would cut an
+                    # interrupted run elsewhere)
+                    if 0 < fed <= n and (fail is None or fed <= fail):
+                        plain.run(scared.Container(ths_of(samples[start:start + fed], pt[start:start + fed], W_)))
                     start += n
                     ct = a.convergence_traces
                     ncols.append(0 if ct is None else int(ct.shape[-1]))
@@ -210,14 +261,17 @@ class ConvKind(Kind):
                 after = [c[1] for c in log[1:]] + [k]
                 points = [c[0] for c, nxt in zip(log, after) if nxt > c[1]]
                 obs['points'] = points
-                obs['prefix'] = [self.prefix_scores(case, p) if 1 <= p <= TMAX else [] for p in points]
+                obs['prefix'] = [self.prefix_scores(case, p, fed_idx) if 1 <= p <= len(fed_idx) else [] for p in points]
         finally:
             scared.set_batch_size(None)
         return obs
 
     def coq(self, case, obs):
-        head = 'c8_step := %s; c8_runs := %s; c8_prec := %s' % (
+        fails = case.get('fails') or [None] * len(case['runs'])
+        fed = obs['fed'] if 'raised' not in obs else [0] * len(case['runs'])
+        head = 'c8_step := %s; c8_runs := %s; c8_fails := %s; c8_obs_fed := %s; c8_prec := %s' % (
             C.coq_nat(case['step']), C.coq_list(case['runs'], lambda r: '(%s, %s)' % (C.coq_nat(r[0]), C.coq_nat(r[1]))),
+            C.coq_list(fails, lambda f: C.coq_option(f, C.coq_nat)), C.coq_list(fed, C.coq_nat),
             'F32' if case['prec'] == 'float32' else 'F64')
         if 'raised' in obs:
             return ('{| %s; c8_width := 0%%nat; c8_obs_computes := []; c8_obs_ncols := []; c8_obs_points := []; c8_obs_marks := None; c8_obs_conv := []; '
@@ -234,9 +288,13 @@ class ConvKind(Kind):
     def oracle(self, case, obs):
         if 'raised' in obs:
             return f'run() raised {obs["raised"]}: {obs["msg"]}'
+        fails = case.get('fails') or [None] * len(case['runs'])
+        for i, f in enumerate(fails):
+            if (f is not None) != obs['failed'][i]:
+                return f'run() number {i}: the exception of the poisoned batch was {"not " if f is not None else ""}propagated'
         if len(obs['points']) != len(obs['conv']):
-            return (f'{len(obs["conv"])} columns in convergence_traces but {len(obs["points"])} compute_results() calls were followed by a '
-                    'new column')
+            return (f'convergence_traces holds {len(obs["conv"])} columns at the end but {len(obs["points"])} columns were appended during the '
+                    'history (columns disappeared, or were appended without a compute_results() call)')
         return None
 
     def nontrivial(self, case, obs):
@@ -246,6 +304,8 @@ class ConvKind(Kind):
         n, bs = case['runs'][0]
         st = case['step']
         f = {'class': case['cls'], 'runs': len(case['runs']), 'prec': case['prec'],
+             'interrupted_run': 'none' if not any(x is not None for x in (case.get('fails') or [])) else
+                                'first' if case['fails'][0] is not None else 'later',
              'step_vs_bs': 'lt' if st < bs else 'eq' if st == bs else 'gt',
              'step_vs_N': 'gt' if st > n else 'divides' if n % st == 0 else 'not_dividing'}
         if 'raised' not in obs:
@@ -261,13 +321,23 @@ class ConvKind(Kind):
         return {'case': case, 'observed': o}
 
     def shrink(self, case):
-        if len(case['runs']) > 1:
-            for i in range(len(case['runs'])):
-                yield dict(case, runs=case['runs'][:i] + case['runs'][i + 1:])
-        for i, (n, bs) in enumerate(case['runs']):
+        runs = case['runs']
+        fails = case.get('fails') or [None] * len(runs)
+        if len(runs) > 1:
+            for i in range(len(runs)):
+                nf = fails[:i] + fails[i + 1:]
+                if nf[-1] is not None:          # the history must end with a run() that completes
+                    continue
+                yield dict(case, runs=runs[:i] + runs[i + 1:], fails=nf)
+        for i, (n, bs) in enumerate(runs):
             for n2 in (n // 2, n - 1):
                 if 1 <= n2 < n:
-                    yield dict(case, runs=case['runs'][:i] + [[n2, bs]] + case['runs'][i + 1:])
+                    nf = list(fails)
+                    if nf[i] is not None and nf[i] >= n2:
+                        if i == len(runs) - 1 or n2 < 2:
+                            continue
+                        nf[i] = n2 - 1
+                    yield dict(case, runs=runs[:i] + [[n2, bs]] + runs[i + 1:], fails=nf)
         if case['step'] > 1:
             yield dict(case, step=case['step'] - 1)
 
